@@ -47,6 +47,7 @@ type rlScn struct {
 	Outcome []string  `json:"outcome"`
 	Version string    `json:"version"`
 	Notifs  int       `json:"notifs"`
+	Pre     bool      `json:"pre"`
 	Burst   bool      `json:"burst"` // consecutive reads of the behaviour are handed over together: no idle iteration of the loop in between
 }
 
@@ -193,9 +194,24 @@ func c08rlOne(s *rlScn, idx int) verdict {
 			framed = simdev.Frame10([]byte(pay))
 		}
 
+		// the framing prefix as a token of its own (behaviours generated with Pre = TRUE use it; otherwise it is part of hdr)
+		cut0 := 0
+
+		if s.Pre {
+			if s.Version == "1.1" {
+				cut0 = bytes.Index(framed[1:], []byte("\n")) + 2
+			} else {
+				decl := []byte(`<?xml version="1.0" encoding="UTF-8"?>`)
+				framed = append(append([]byte(nil), decl...), framed...)
+				cut0 = len(decl)
+			}
+
+			tokens[rlTok{"pre", i}] = framed[:cut0]
+		}
+
 		cut1 := bytes.Index(framed, []byte(`">`)) + 2
 		cut2 := bytes.LastIndex(framed, delim)
-		tokens[rlTok{"hdr", i}] = framed[:cut1]
+		tokens[rlTok{"hdr", i}] = framed[cut0:cut1]
 		tokens[rlTok{"body", i}] = framed[cut1:cut2]
 		tokens[rlTok{"end", i}] = framed[cut2:]
 	}
@@ -402,7 +418,7 @@ func c08rlOne(s *rlScn, idx int) verdict {
 		}
 	}
 
-	if err = tr.release(append(append(append([]byte(nil), tokens[rlTok{"hdr", p}]...), tokens[rlTok{"body", p}]...), tokens[rlTok{"end", p}]...)); err != nil {
+	if err = tr.release(append(append(append(append([]byte(nil), tokens[rlTok{"pre", p}]...), tokens[rlTok{"hdr", p}]...), tokens[rlTok{"body", p}]...), tokens[rlTok{"end", p}]...)); err != nil {
 		return tool("%v", err)
 	}
 
